@@ -121,10 +121,10 @@ Section Cover.
     { intros _ Hr Hi. apply in_tag in Hi as [-> Hd]. exists c. split; [reflexivity|].
       unfold redirs_of in Hr. rewrite ok_flat_map in Hr. exact (Hr d Hd). }
     destruct (str_eqb k $"command") eqn:E; [apply str_eqb_eq in E; subst k|].
-    { rewrite walk_command in H. apply ok_combine in H. rewrite !ok_app in H. destruct H as [Hw [_ [Hr _]]].
+    { rewrite walk_command in H. apply ok_combine in H. rewrite !ok_app in H. destruct H as [Hw [_ [_ [_ [Hr _]]]]].
       apply in_app_or in Hin as [Hi|Hi]; [|exact (Hred tt Hr Hi)].
       apply in_tag in Hi as [-> Hd]. exists c. split; [reflexivity|].
-      unfold wparts in Hw. rewrite ok_flat_map in Hw. exact (Hw d Hd). }
+      unfold wparts, wpartsb in Hw. rewrite ok_flat_map in Hw. exact (Hw d Hd). }
     destruct (str_eqb k $"pipeline") eqn:E1; [apply str_eqb_eq in E1; subst k|].
     { rewrite walk_pipeline in H. apply ok_combine in H. apply in_tag in Hin as [-> Hd].
       exists c. split; [reflexivity|]. cbn [field]. constructor; [|constructor].
@@ -163,7 +163,7 @@ Section Cover.
         apply firstc_child in Hd. rewrite Hd in Hb. exact Hb.
       - apply in_app_or in Hi as [Hi|Hi]; [|exact (Hred tt Hr Hi)].
         apply in_tag in Hi as [-> Hd]. exists c. split; [reflexivity|].
-        unfold wparts in Hw. rewrite ok_flat_map in Hw. exact (Hw d Hd). }
+        unfold wparts, wpartsb in Hw. rewrite ok_flat_map in Hw. exact (Hw d Hd). }
     destruct (str_eqb k $"select") eqn:E7; [apply str_eqb_eq in E7; subst k|].
     { kinds. rewrite walk_select in H. cbv zeta in H. apply ok_combine in H. rewrite ok_cons, ok_app in H. destruct H as [Hb [Hw Hr]].
       apply in_app_or in Hin as [Hi|Hi].
@@ -171,7 +171,7 @@ Section Cover.
         apply firstc_child in Hd. rewrite Hd in Hb. exact Hb.
       - apply in_app_or in Hi as [Hi|Hi]; [|exact (Hred tt Hr Hi)].
         apply in_tag in Hi as [-> Hd]. exists c. split; [reflexivity|].
-        unfold wparts in Hw. rewrite ok_flat_map in Hw. exact (Hw d Hd). }
+        unfold wparts, wpartsb in Hw. rewrite ok_flat_map in Hw. exact (Hw d Hd). }
     cbn [orb] in Hin.
     destruct (str_eqb k $"for-arith") eqn:E8; [apply str_eqb_eq in E8; subst k|].
     { rewrite walk_forarith in H. cbv zeta in H. apply ok_combine in H. rewrite ok_cons, !ok_app in H. destruct H as [Hb [_ [_ [_ Hr]]]].
@@ -182,7 +182,7 @@ Section Cover.
     { rewrite walk_case in H. apply ok_combine in H. rewrite !ok_app in H. destruct H as [Hw [Hp Hr]].
       apply in_app_or in Hin as [Hi|Hi].
       - apply in_tag in Hi as [-> Hd]. exists c. split; [reflexivity|].
-        unfold wparts in Hw. rewrite ok_flat_map in Hw. exact (Hw d Hd).
+        unfold wparts, wpartsb in Hw. rewrite ok_flat_map in Hw. exact (Hw d Hd).
       - apply in_app_or in Hi as [Hi|Hi]; [|exact (Hred tt Hr Hi)].
         apply in_tag in Hi as [-> Hd]. destruct (pats_all c _ Hp d Hd) as [c' [Hm Hc']]. exists c'. split; [exact Hm|exact Hc']. }
     destruct (str_eqb k $"function") eqn:E10; [apply str_eqb_eq in E10; subst k|].
@@ -328,14 +328,29 @@ Section Cover.
       unfold ok in H. rewrite Forall_map, Forall_forall in H. exact (H u Hu).
   Qed.
 
+  Lemma name_scans_ok c base words nassign l : forall pos,
+    ok (name_scans astr c base words nassign pos l) -> forall s, In s (name_raws base words nassign pos l) -> raw_ok c s.
+  Proof.
+    induction l as [|t l IH]; intros pos H s Hs; [destruct Hs|].
+    cbn [name_scans name_raws] in *. apply ok_app in H as [H1 H2]. apply in_app_or in Hs as [Hs|Hs]; [|exact (IH _ H2 s Hs)].
+    destruct (negb (nonempty (children "parts" t)) && (Nat.ltb pos nassign || names_variable base words pos nassign)); [|destruct Hs].
+    destruct Hs as [<-|[]]. exact H1.
+  Qed.
+
   Lemma raw_step r t c : ok (field r (ev t) c) -> forall s, In s (raw_positions r t) -> raw_ok c s.
   Proof.
     destruct t as [k ss fs ks]. destruct r as [| |b| | |]; cbn [field raw_positions]; unfold is_kind; cbn [kind_of strs_of]; intros H s Hs.
-    - destruct (str_eqb k $"for-arith") eqn:E; [|destruct Hs]. apply str_eqb_eq in E. subst k.
-      apply ok_cons in H as [H _]. change (walk c (T $"for-arith" ss fs ks) = Allow) in H.
-      rewrite walk_forarith in H. cbv zeta in H. apply ok_combine in H.
-      rewrite ok_cons, !ok_app in H. destruct H as [_ [H1 [H2 [H3 _]]]].
-      destruct Hs as [<-|[<-|[<-|[]]]]; assumption.
+    - destruct (str_eqb k $"for-arith") eqn:E.
+      + apply str_eqb_eq in E. subst k.
+        apply ok_cons in H as [H _]. change (walk c (T $"for-arith" ss fs ks) = Allow) in H.
+        rewrite walk_forarith in H. cbv zeta in H. apply ok_combine in H.
+        rewrite ok_cons, !ok_app in H. destruct H as [_ [H1 [H2 [H3 _]]]].
+        destruct Hs as [<-|[<-|[<-|[]]]]; assumption.
+      + destruct (str_eqb k $"command") eqn:Ec; [|destruct Hs]. apply str_eqb_eq in Ec. subst k.
+        apply ok_cons in H as [H _]. change (walk c (T $"command" ss fs ks) = Allow) in H.
+        rewrite walk_command in H. apply ok_combine in H. rewrite !ok_app in H. destruct H as [_ [_ [Hn _]]].
+        unfold cmd_names, cmd_words in Hn. unfold command_raws in Hs.
+        exact (name_scans_ok _ _ _ _ _ _ Hn s Hs).
     - rewrite exp_unfold in H. destruct (mem_str k SUBST_KINDS); [destruct Hs|].
       destruct (str_eqb k $"word"); [destruct Hs|].
       apply ok_app in H as [H _]. rewrite ok_flat_map in H. apply in_map_iff in Hs as [[l x] [<- Hx]]. exact (H (l, x) Hx).
